@@ -205,7 +205,7 @@ def parse_extract_args(line):
     # //@ extract <file> <kind> <name> key=value ...
     lex = shlex.split(line)
     file_, kind, name = lex[0], lex[1], lex[2]
-    opts = {"ctx": None, "nth": None, "bools": [], "rewrites": [], "consts": None}
+    opts = {"ctx": None, "nth": None, "bools": [], "rewrites": [], "consts": None, "vis": "pub"}
     i = 3
     while i < len(lex):
         w = lex[i]
@@ -213,6 +213,8 @@ def parse_extract_args(line):
             opts["ctx"] = w[4:]
         elif w.startswith("nth="):
             opts["nth"] = int(w[4:])
+        elif w.startswith("vis="):
+            opts["vis"] = w[4:]
         elif w.startswith("bools="):
             opts["bools"] = [x for x in w[6:].split(",") if x]
         elif w.startswith("rewrite="):
@@ -251,7 +253,7 @@ def extract_real(file_, kind, name, opts):
     except ItemError as ex:
         raise UnitError("anchor lost: %s in %s: %s" % (name, file_, ex))
     item = toks[s:e]
-    n = Normaliser(bools=opts["bools"])
+    n = Normaliser(bools=opts["bools"], vis=opts.get("vis", "pub"))
     try:
         real = n.run(kind, item, opts["rewrites"])
     except (NormError, TokError, IndexError, AssertionError) as ex:
@@ -405,6 +407,135 @@ def import_header(unit, fn, stack=()):
 # authoring tool: (re)compute ghost markers of a template against /repo
 # --------------------------------------------------------------------------
 
+def _tree(toks, idxs):
+    """idxs: indices into toks (pre-marked ghost tokens removed) -> nodes
+    node = (i,) plain token | (i_open, i_close, children)"""
+    nodes = []
+    stack = [nodes]
+    opens = []
+    for i in idxs:
+        t = toks[i]
+        if t.kind == "open":
+            node = [i, None, []]
+            stack[-1].append(node)
+            stack.append(node[2])
+            opens.append(node)
+        elif t.kind == "close":
+            if not opens:
+                raise UnitError("unbalanced template/real item")
+            node = opens.pop()
+            node[1] = i
+            stack.pop()
+        else:
+            stack[-1].append((i,))
+    if opens:
+        raise UnitError("unbalanced template/real item")
+    return nodes
+
+
+def _all(node, acc):
+    if len(node) == 1:
+        acc.append(node[0])
+    else:
+        acc.append(node[0])
+        acc.append(node[1])
+        for c in node[2]:
+            _all(c, acc)
+
+
+def tree_align(mtoks, real):
+    """structure-aware alignment of template tokens with the real tokens.
+    returns (ghost flags for mtoks, list of mismatches)"""
+    n = len(mtoks)
+    ghost = [False] * n
+    # pre-pass: named return  `-> ( id : T )`  and  named iterator `in id :`
+    pre = set()
+    for i, t in enumerate(mtoks):
+        if t.text == "->" and i + 3 < n and mtoks[i + 1].text == "(" and mtoks[i + 2].kind == "id" and mtoks[i + 3].text == ":":
+            j = match_close(mtoks, i + 1)
+            pre.update([i + 1, i + 2, i + 3, j])
+        if t.text == "in" and i + 2 < n and mtoks[i + 1].kind == "id" and mtoks[i + 2].text == ":" and mtoks[i + 3].text != ":":
+            pre.update([i + 1, i + 2])
+    for i in pre:
+        ghost[i] = True
+    tn = _tree(mtoks, [i for i in range(n) if i not in pre])
+    rn = _tree(real, list(range(len(real))))
+    bad = []
+
+    import sys
+    sys.setrecursionlimit(10000)
+    NEG = -10 ** 9
+    memo = {}
+
+    def embed(tnodes, rnodes):
+        """best embedding of rnodes into tnodes; returns (score, pairs) or (NEG, None)"""
+        k = (id(tnodes), id(rnodes))
+        if k in memo:
+            return memo[k]
+        nt, nr = len(tnodes), len(rnodes)
+        # f[i][j][c]
+        f = [[[NEG, NEG] for _ in range(nr + 1)] for _ in range(nt + 1)]
+        ch = [[[None, None] for _ in range(nr + 1)] for _ in range(nt + 1)]
+        for i in range(nt, -1, -1):
+            for j in range(nr, -1, -1):
+                for c in (0, 1):
+                    if j == nr:
+                        f[i][j][c] = 0
+                        ch[i][j][c] = "end"
+                        continue
+                    if i == nt:
+                        continue
+                    best, how = f[i + 1][j][0], "skip"
+                    x, y = tnodes[i], rnodes[j]
+                    ok = False
+                    g = 0
+                    if len(x) == len(y) and mtoks[x[0]].text == real[y[0]].text:
+                        if len(x) == 1:
+                            ok = True
+                        else:
+                            g, _ = embed(x[2], y[2])
+                            ok = g > NEG
+                    if ok and f[i + 1][j + 1][1] > NEG:
+                        v = f[i + 1][j + 1][1] + g + (2 if c else 0) + 1
+                        if v >= best:
+                            best, how = v, "match"
+                    f[i][j][c] = best
+                    ch[i][j][c] = how
+        if f[0][0][0] <= NEG:
+            memo[k] = (NEG, None)
+            return memo[k]
+        pairs = []
+        i, j, c = 0, 0, 0
+        while j < nr:
+            how = ch[i][j][c]
+            if how == "match":
+                pairs.append((i, j))
+                i, j, c = i + 1, j + 1, 1
+            else:
+                i, c = i + 1, 0
+        memo[k] = (f[0][0][0], pairs)
+        return memo[k]
+
+    def apply(tnodes, rnodes):
+        sc, pairs = embed(tnodes, rnodes)
+        if pairs is None:
+            bad.append(("no-embedding", " ".join(mtoks[x[0]].text for x in tnodes)[:120], " ".join(real[y[0]].text for y in rnodes)[:120]))
+            return
+        matched = set(i for i, _ in pairs)
+        for i, x in enumerate(tnodes):
+            if i not in matched:
+                acc = []
+                _all(x, acc)
+                for q in acc:
+                    ghost[q] = True
+        for i, j in pairs:
+            if len(tnodes[i]) == 3:
+                apply(tnodes[i][2], rnodes[j][2])
+
+    apply(tn, rn)
+    return ghost, bad
+
+
 def mark_unit(unit):
     path = os.path.join(UNITS, unit + ".rs")
     lines = open(path).read().split("\n")
@@ -431,52 +562,7 @@ def mark_unit(unit):
             mtoks, trailing = tokenize(plain)
             real, info = extract_real(file_, kind, name, opts)
             a = [t.text for t in mtoks]
-            b = [t.text for t in real]
-            sm = difflib.SequenceMatcher(None, a, b, autojunk=False)
-            ghost = [False] * len(a)
-            bad = []
-            for tag, i1, i2, j1, j2 in sm.get_opcodes():
-                if tag == "delete":
-                    for k in range(i1, i2):
-                        ghost[k] = True
-                elif tag != "equal":
-                    bad.append((tag, " ".join(a[i1:i2])[:80], " ".join(b[j1:j2])[:80]))
-            def _bal(lo, hi):
-                d = 0
-                ts = mtoks[lo:hi]
-                if ts and ts[0].text == ")" and len(ts) > 1:
-                    ts = ts[1:]
-                if [x.text for x in ts] == [")"] or (len(ts) == 3 and ts[0].text == "(" and ts[2].text == ":"):
-                    return True
-                for x in ts:
-                    if x.kind == "open":
-                        d += 1
-                    elif x.kind == "close":
-                        d -= 1
-                        if d < 0:
-                            return False
-                return d == 0
-            k = 0
-            while k < len(a):
-                if not ghost[k]:
-                    k += 1
-                    continue
-                e = k
-                while e < len(a) and ghost[e]:
-                    e += 1
-                lo, hi = k, e
-                # slide right / left until balanced
-                while not _bal(lo, hi) and hi < len(a) and not ghost[hi] and a[hi] == a[lo]:
-                    ghost[lo] = False
-                    ghost[hi] = True
-                    lo += 1
-                    hi += 1
-                while not _bal(lo, hi) and lo > 0 and not ghost[lo - 1] and a[lo - 1] == a[hi - 1]:
-                    ghost[hi - 1] = False
-                    ghost[lo - 1] = True
-                    lo -= 1
-                    hi -= 1
-                k = max(hi, e)
+            ghost, bad = tree_align(mtoks, real)
             if bad:
                 report.append((name, bad))
                 out += region
